@@ -31,7 +31,7 @@ def floor(tier):
 
 
 def cases(tier, rng):
-    n = 80 if tier == "quick" else 1600
+    n = 80 if tier == "quick" else 8000
     out = []
     # anchors: asymptotic schemes at PTO = PTO_evol >= 1 with genuinely mixing targets (several kernels per flavour there)
     k = 0
